@@ -4,6 +4,7 @@ from . import common as C
 from . import semchecks as SC
 from . import simple as SP
 from . import grammar as GR
+from . import fold as FD
 
 CHECKS = {}
 
@@ -180,6 +181,124 @@ def c16(tier, replay):
                      assumptions=["names are compared as code point sequences"])
 
 
+def cpset_replay(R, v, cov):
+    """IntervalSet.tla: TLC explores the whole state space of the CodePointSet machine (every set of
+    blocks, every operation) checking the representation invariant and the algebraic laws, and prints
+    each transition; the runner replays every transition on the real CodePointSet."""
+    import time as _t
+    work = R["work"]
+    cache = C.ensure_dir(os.path.join(C.OUT, "cache"))
+    path = os.path.join(cache, "intervalset.%s.ndjson" % C.spec_hash())
+    meta = path + ".meta"
+    if not (os.path.exists(path) and os.path.exists(meta)):
+        res = C.tlc("MCIntervalSet", "MCIntervalSet.cfg", workers=8, xmx="6g", timeout=900, workdir=work)
+        with open(path + ".tmp", "w") as o:
+            for j in res.jlines:
+                o.write(json.dumps(j) + "\n")
+        os.rename(path + ".tmp", path)
+        json.dump({"states": res.distinct, "transitions": res.generated, "lines": len(res.jlines)}, open(meta, "w"))
+        C.log("IntervalSet.tla: %d states, %d transitions in %.1fs" % (res.distinct, res.generated, res.wall))
+    m = json.load(open(meta))
+    if m["lines"] + 1 != m["transitions"] or m["states"] < 2:
+        raise C.ToolError("IntervalSet exploration incomplete: %s" % m)
+    from . import sem as S
+    t0 = _t.time()
+    paths, crashes = S.run_runner(C.build_runner(), "cpset", path, work, [], shards=8, label="cp")
+    n = bad = 0
+    for line in open(paths["cp"]):
+        r = json.loads(line)
+        n += 1
+        if not r["ok"]:
+            bad += 1
+            if bad <= 10:
+                t = S_read_line(path, r["rid"])
+                v.violation("CodePointSet %s(%s) on %s: expected %s, but: %s" % (t["op"], t["arg"], t["before"], t["after"], r["wrong"]),
+                            {"pipeline": "cpset", "case": t, "wrong": r["wrong"]})
+    for c in crashes:
+        t = S_read_line(path, c["case"])
+        v.violation("CodePointSet replay killed the process (rc=%s) on %s" % (c["rc"], t), {"pipeline": "cpset", "case": t})
+    os.remove(paths["cp"])
+    if n + len(crashes) != m["lines"]:
+        raise C.ToolError("cpset replay consumed %d of %d transitions" % (n, m["lines"]))
+    cov["states"] += m["states"]
+    cov["transitions"] += m["transitions"]
+    cov["traces_validated_against_impl"] = cov.get("traces_validated_against_impl", 0) + n
+    cov["codepointset_transitions_replayed"] = n
+    cov["evaluations"] += n
+    C.log("CodePointSet replay: %d transitions, %d wrong, %.1fs" % (n, bad, _t.time() - t0))
+
+
+def S_read_line(path, k):
+    with open(path) as f:
+        for i, l in enumerate(f):
+            if i == k:
+                return json.loads(l)
+    return {}
+
+
+@check("C12")
+def c12(tier, replay):
+    if replay and load_replay(replay).get("pipeline") == "cpset":
+        v = C.Verdict("C12", tier)
+        work = C.fresh_dir(os.path.join(C.OUT, "work", "C12"))
+        t = load_replay(replay)["case"]
+        f = os.path.join(work, "one.ndjson")
+        open(f, "w").write(json.dumps(t) + "\n")
+        from . import sem as S
+        paths, crashes = S.run_runner(C.build_runner(), "cpset", f, work, [], shards=1, label="cp")
+        for line in open(paths["cp"]):
+            r = json.loads(line)
+            if not r["ok"]:
+                v.violation("CodePointSet %s: %s" % (t["op"], r["wrong"]), {"pipeline": "cpset", "case": t})
+        return v.finish("model_checking", {"evaluations": 1, "distinct_nontrivial": 1, "states": 0, "transitions": 0, "rule": "replay", "samples": [t]}, [])
+    return sem_check("C12", tier, replay, [], kinds_sem=("first", "seq", "compile"), pairs=SC.PAIRS["C02"] + SC.PAIRS["C03"],
+                     rule=SEM_RULE + " Families FC1 (bracket expressions without v: every sequence of one or two items - characters of "
+                     "the s/k fold classes, ranges, class escapes and negations, Unicode properties and negations - negated or not, with "
+                     "and without i and u, in three spellings) and FC2 (class sets under v and iv: leaves, all binary unions / "
+                     "intersections / subtractions, nested negations, \\q{} strings incl. the empty string, one more operator level); the "
+                     "expected matches come from ClassSet.tla (CompileToCharSet with MaybeSimpleCaseFolding and the v-mode complement) "
+                     "through ESSem. In addition IntervalSet.tla (the CodePointSet state machine over 8 consecutive blocks of the "
+                     "code point space: 256 states x 805 operations add / add_set / remove / intersect / inverted) is explored "
+                     "completely by TLC with the representation invariant and algebraic laws, and every transition is replayed on the "
+                     "real CodePointSet through the hook wrapper (interval list, inverted_interval_count and membership probes compared).",
+                     extra=None if replay else cpset_replay,
+                     assumptions=["sets are evaluated on the model universe of spec/ClassSet.tla (closed under both case relations)",
+                                  "General_Category Lu/Ll restricted to the universe transcribed from UnicodeData.txt"])
+
+
+@check("C10")
+def c10(tier, replay):
+    def sweeps(R, v, cov):
+        only = None
+        if replay:
+            rp = load_replay(replay)
+            only = rp.get("cp")
+        cov.setdefault("samples", [])
+        FD.sweep(v, cov, R["work"], only=only)
+
+    if replay and load_replay(replay).get("pipeline") == "fold":
+        v = C.Verdict("C10", tier)
+        work = C.fresh_dir(os.path.join(C.OUT, "work", "C10"))
+        cov = {"states": 0, "transitions": 0, "evaluations": 0, "distinct_nontrivial": 0, "samples": [], "rule": "replay of one code point"}
+        FD.sweep(v, cov, work, only=load_replay(replay).get("cp"))
+        return v.finish("exploration", cov, [])
+    return sem_check("C10", tier, replay, [], kinds_sem=("first", "seq"), level="exploration",
+                     families=["F6", "F13"] if tier == "quick" else ["F6", "F13", "FC1", "FC2"], extra=None if replay else sweeps,
+                     rule="(1) All 1 114 112 code points are swept through the engine's folding mechanisms by hook (fold_code_point in both "
+                     "modes, expand_code_point in both modes, add_icase_code_points on singletons and on windows around every cased "
+                     "block) and the induced partitions are compared by TLC (JudgeFold.tla) with the classes of Fold.tla taken from an "
+                     "oracle independent of regress (simple case folding orbits of regex-syntax's Unicode 16 tables; Rust std's Unicode 17 "
+                     "to_uppercase for the legacy rule and for code points Unicode 16 does not assign). (2) For every code point with a "
+                     "non-trivial class in the oracle or the engine (about 2 900) and each of i / iu / iv, the regexes /^c$/, /^[c]$/, "
+                     "/^[^c]$/, /^(.)\\1$/ and /(?<=^\\1(.))$/ are run against every member of the classes and their neighbours and TLC "
+                     "requires each to accept exactly the related code points; \\w, \\W, [\\w], [\\W] and \\b are swept over all code points "
+                     "in five flag sets. (3) The semantic families F6/F13 (literals, classes, negated classes, backreferences, \\w, \\b "
+                     "over the fold classes of the model alphabet in i, iu, iv) are judged against ESSem. Differences that concern only "
+                     "code points assigned after Unicode 16, or supplementary code points without u/v, are counted as undecided.",
+                     assumptions=["case pairs of characters assigned in Unicode 16 are unchanged in Unicode 17 (stability policy)",
+                                  "regex-syntax 0.8.11's case folding table is a faithful copy of CaseFolding.txt 16.0"])
+
+
 @check("C08")
 def c08(tier, replay):
     return GR.check_c08(tier, replay)
@@ -278,6 +397,7 @@ def setup():
     try:
         C.build_runner()
         C.build_runner(profile="checked")
+        FD.build_oracle()
         for f in sorted(os.listdir(C.SPEC)):
             if f.endswith(".tla"):
                 p = subprocess.run(["tla-sany", f], cwd=C.SPEC, stdout=subprocess.PIPE, stderr=subprocess.STDOUT, text=True)
